@@ -193,6 +193,14 @@ def c17(run):
     for i, c in enumerate(cases):
         c['ci'] = i
     body, summary, oks = run.harness('c17', cases)
+    tpath = os.path.join(run.work, 'c17_out.ndjson.trace_framing.ndjson')
+    if os.path.exists(tpath):
+        # implementation -> specification: every read() of a literal packet through Message, in every framing of the bound (truncated ones
+        # included), is a behaviour of Framing's reader machine (TraceFraming; header octets, fills and chunk transitions are silent)
+        n = run.validate_trace('TraceFraming', "CONSTANTS\n  Hdr = 6\n  Framings = {}\n  FillSizes = {1}\nSPECIFICATION TraceSpec\nINVARIANTS TraceInvariants\nCONSTRAINT Progress\nPOSTCONDITION Accepted\nCHECK_DEADLOCK FALSE\n",
+                               tpath, 'tv_framing', 'c17.trace')
+        run.notes['trace_validation'] = f'{n} recorded runs of the streaming literal reader accepted by TraceFraming'
+
     run.distinct_nontrivial = summary['extra']['nontrivial']
     run.traces_validated = summary['evaluations']
     run.exhaustive = True
@@ -257,6 +265,25 @@ CHECK_DEADLOCK FALSE
 """
 
 
+def selftest_trace(run, module, cfg, path):
+    """corrupt one recorded field of the first 300 events and require that TLC rejects the trace"""
+    recs = vlib.read_ndjson(path)[:300]
+    # cut at a run boundary
+    while recs and recs[-1].get('ev') not in ('eof', 'err'):
+        recs.pop()
+    idx = [i for i, r in enumerate(recs) if r.get('ev') == 'err' and i > 0 and recs[i - 1].get('ev') == 'out']
+    if not idx:
+        return 'no suitable event'
+    recs[idx[0] - 1] = dict(recs[idx[0] - 1], k=recs[idx[0] - 1]['k'] + 1)
+    p = path + '.corrupt'
+    vlib.write_ndjson(p, recs)
+    r = vlib.tlc(module, cfg_text=cfg, name='tv_selftest_' + run.pid, workers=1, timeout=300, deque=True, env={'VERIF_TRACE': p})
+    os.remove(p)
+    if r.violated != 'postcondition':
+        raise vlib.ToolError('trace validation self-test: a corrupted trace was ACCEPTED - the trace specification does not bind')
+    return 'a trace with one released-octet count increased by 1 is rejected'
+
+
 @prop('C03', 'model_checking')
 def c03(run):
     both = ['checkfirst', 'streaming']
@@ -283,6 +310,18 @@ def c03(run):
     run.distinct_nontrivial = summary['extra']['nontrivial']
     run.traces_validated = summary['evaluations']
     run.exhaustive = True
+    # implementation -> specification: what every read() of the real stream decryptors returned (recorded by the harness) must be
+    # a behaviour of the specification's machine at the real constants; refills are silent steps chosen by TLC
+    tbase = os.path.join(run.work, 'c03_out.ndjson')
+    tv_cfg = ("SPECIFICATION TraceSpec\nINVARIANTS TraceInvariants\nCONSTRAINT Progress\nPOSTCONDITION Accepted\nCHECK_DEADLOCK FALSE\n")
+    if os.path.exists(tbase + '.trace_v2.ndjson'):
+        run.recorded_runs = run.validate_trace('TraceAead', "CONSTANTS\n  C = 64\n  T = 16\n  NSet = {1}\n  AllDeletes = FALSE\n  FlipStride = 1\n  HdrLen = 36\n  BindIdx = TRUE\n  NeedFinal = TRUE\n" + tv_cfg,
+                                               tbase + '.trace_v2.ndjson', 'tv_aead', 'c03.trace_v2')
+        run.recorded_runs += run.validate_trace('TraceCfb', "CONSTANTS\n  P = 18\n  M = 22\n  B = 8192\n  NSet = {1}\n  AllDeletes = FALSE\n  FlipStride = 1\n  RelSizes = {1}\n  Modes = {\"streaming\", \"checkfirst\"}\n  MaxMsg = 1073741824\n  MdcChecked = TRUE\n" + tv_cfg,
+                                                tbase + '.trace_v1.ndjson', 'tv_cfb', 'c03.trace_v1')
+        run.notes['trace_validation'] = f'{run.recorded_runs} recorded runs of StreamDecryptor::v2 / ::v1 accepted by TraceAead / TraceCfb'
+        # the binding is real: a trace with one recorded count changed must be rejected
+        run.notes['trace_validation_selftest'] = selftest_trace(run, 'TraceAead', "CONSTANTS\n  C = 64\n  T = 16\n  NSet = {1}\n  AllDeletes = FALSE\n  FlipStride = 1\n  HdrLen = 36\n  BindIdx = TRUE\n  NeedFinal = TRUE\n" + tv_cfg, tbase + '.trace_v2.ndjson')
     run.rule = ('AeadStream and CfbMdc are model-checked exhaustively at scaled constants (every flip / delete range / insert / '
                 'duplicate / swap / header change) and again at the real constants (chunk 64, tag 16; prefix 18, MDC 22, buffer '
                 '8192) over boundary lengths, where TLC emits one case per (length, manipulation[, read mode]). Each case is applied '
